@@ -596,6 +596,58 @@ def run(ctx):
         if nbad == 0:
             ctx.ok(R_subst, {"fn": path})
 
+    # what the block entry announces is written (shared with C01): FLAG_SECTOR_CRC set => a checksum follows on every success path
+    from .c01 import crc_flag_implies_checksum_rule
+    crc_flag_implies_checksum_rule(ctx, mpq, "C10")
+
+    # the sector checksum table: the reader expects it exactly for the files the builder writes it for.  The builder writes a sectored
+    # file (with its checksum table when generate_crcs) as soon as the data is one byte longer than a sector — two sectors — so a
+    # reader that only looks for the table from three sectors on never checks two-sector files.
+    R_tab = ctx.rule("C10.checksum-table-expected-for-every-sectored-file-the-builder-writes", "the smallest sector count for which read_sectored_file looks for the checksum table is <= the smallest sector count of a sectored file ArchiveBuilder::write_file produces (from its single-unit test)", floor=1)
+    from .. import cmpeval as _ce
+    wf = next((f for f in mpq.fn_list if f.hir and f.kind != "Closure" and f.path.endswith("builder::ArchiveBuilder::write_file")), None)
+    rs = mpq.fns.get("wow_mpq::archive::Archive::read_sectored_file")
+    if wf is None or rs is None or not rs.hir:
+        ctx.bad(R_tab, "crc-table|missing", "-", "write_file or read_sectored_file not found", "anchor gone")
+    else:
+        ctx.saw_fn(wf)
+        ctx.saw_fn(rs)
+        # writer: the single-unit test compares the data length with the sector size
+        wmin = None
+        for l in hirq.find(wf.hir["body"], "let"):
+            if l["pat"].get("k") == "bind" and re.search(r"single_unit", l["pat"]["name"]) and l.get("init") is not None:
+                c_ = hirq.strip(l["init"])
+                ats = _ce.atoms(c_) if c_.get("k") == "bin" else []
+                dl = next((a for a in ats if ".len()" in a), None)
+                ss = next((a for a in ats if "sector_size" in a), None)
+                if dl and ss:
+                    tt = _ce.truth_table(c_, dl, ss)
+                    # data == sector_size is one sector; data > sector_size is at least two
+                    wmin = 1 if not tt["eq"] else (2 if not tt["gt"] else None)
+        # reader: the conjunct on sector_count in the guard of the block that reads the checksum table
+        rmin = None
+        where = rs.where
+        for n_ in hirq.find(rs.hir["body"], "if"):
+            if not re.search(r"crc", hirq.render(n_["then"])[:4000], re.I) or "sector_count" not in hirq.render(n_["c"]):
+                continue
+            for c_ in hirq.walk(n_["c"]):
+                if c_.get("k") == "bin" and c_["op"] in (">", ">=", "<", "<=", "!=", "==") and "sector_count" in hirq.render(c_) and (hirq.const_int(c_["r"]) is not None or hirq.const_int(c_["l"]) is not None):
+                    k_ = hirq.const_int(c_["r"]) if hirq.const_int(c_["r"]) is not None else hirq.const_int(c_["l"])
+                    op = c_["op"] if hirq.const_int(c_["r"]) is not None else {"<": ">", "<=": ">=", ">": "<", ">=": "<=", "==": "==", "!=": "!="}[c_["op"]]
+                    adm = [v for v in range(0, 8) if {">": v > k_, ">=": v >= k_, "<": v < k_, "<=": v <= k_, "==": v == k_, "!=": v != k_}[op]]
+                    if adm and re.fullmatch(r"\(?sector_count\)?", hirq.render(c_["l"] if hirq.const_int(c_["r"]) is not None else c_["r"]).strip()):
+                        rmin = min(v for v in adm if v >= 1) if any(v >= 1 for v in adm) else None
+                        where = "%s:%d" % (rs.file, c_.get("ln") or 0)
+            if rmin is not None:
+                break
+        if wmin is None or rmin is None:
+            ctx.bad(R_tab, "crc-table|shape", rs.where, "writer's single-unit test (min sectored count %s) or the reader's sector-count guard (min %s) not recognised" % (wmin, rmin), "shape changed")
+        elif rmin <= wmin:
+            ctx.ok(R_tab, {"builder_min_sectors": wmin, "reader_expects_table_from": rmin})
+        else:
+            ctx.bad(R_tab, "read_sectored_file|crc-table-threshold", where, "the checksum table is looked for from %d sectors on; the builder writes sectored files (with the table) from %d sectors on" % (rmin, wmin),
+                    "files of %d..%d sectors written with generate_crcs are read without any sector being checked: a changed byte in a stored sector comes back as file content with no error" % (wmin, rmin - 1))
+
     # v4 digests, writer side: the digest stored for a table is the one computed over that table's bytes as written
     R_v4w = ctx.rule("C10.v4-digest-slots-filled-from-their-table", "each md5_<table> field of the MpqHeaderV4Data literal the builder writes comes from the writer function of that same table, which digests the very buffer it writes", floor=5)
     for f in mpq.fn_list:
